@@ -30,8 +30,8 @@ func init() {
 	core.Register(&core.Prop{
 		ID:       "C02",
 		Title:    "SkipList and SkipListWithCmp behave as an ordered map",
-		Quick:    10000,
-		Thorough: 120000,
+		Quick:    6000,
+		Thorough: 90000,
 		Gen:      gen,
 		Corpus:   corpus,
 		Impl:     impl,
@@ -2315,7 +2315,7 @@ func extraHuge(ctx *core.Ctx) (int, string, []core.ExtraFailure) {
 	if !hooks {
 		return 0, "skipped: private fields not found", nil
 	}
-	runs := 2
+	runs := 1 // quick: one list of 20 000–30 000 keys (≈ 3 s); the bigger budget runs in thorough and on anchor drift
 	if ctx.Tier == "thorough" {
 		runs = 6
 	}
@@ -2326,7 +2326,7 @@ func extraHuge(ctx *core.Ctx) (int, string, []core.ExtraFailure) {
 	evals, keys := 0, 0
 	r := ctx.Rand
 	for i := 0; i < runs; i++ {
-		c := genHuge(r, i, ctx.Tier == "thorough" || ctx.Escalate > 1 || i == 0)
+		c := genHuge(r, i+int(ctx.Seed%2), ctx.Tier == "thorough" || ctx.Escalate > 1)
 		out := impl(c)
 		evals += len(c.Lines)
 		keys += hugeN(c)
